@@ -68,7 +68,12 @@ RULE = (
     "scaling_threshold in {0.1, 1, 100}; drive 'instances': ONE library instance executed on 2-3 different problems "
     "(the first with an observable), every execution held to all the oracles above; drive 'mixed': an optimisation "
     "(possibly ended by a ValueError of a user function, which execute lets through) followed by a DOE on the same "
-    "problem, held to the DOE oracles.  Non-trivial = an execution that GEMSEO ended (message contains 'GEMSEO stopped the "
+    "problem, held to the DOE oracles; restart variant of the second execution: the database is tampered with between "
+    "the executions (Database.filter of none / the objective / the constraints, store(x, {}), clear), the design space is "
+    "put back to x0 and the same algorithm runs again with a smaller max_iter - growth counts the entries that hold "
+    "outputs, the counter stays <= max(maximum, kept value); in nan_grad mode the functions may raise on a non-finite "
+    "design vector, and no database-on execution may ever call them with one; DOE with max_time=1e-9 (serial or "
+    "parallel): <= 1 recorded sample, no output-less entry left, every key a sample.  Non-trivial = an execution that GEMSEO ended (message contains 'GEMSEO stopped the "
     "driver') or a DOE holding a duplicated or failing sample or cut by a kept counter; distinct = structural hash "
     "of the payload."
 )
@@ -296,6 +301,8 @@ def _check_result(h, result, p, settings, ctx, where, coefficient_solver):
     feas = [_ref_feasible(h, k, eq_tol, ineq_tol) for k in db_keys]
     objs = [_stored(problem, k, h.obj_name) for k in db_keys]
     std = problem.minimize_objective or problem.use_standardized_objective
+    # keys of different dtypes (complex_step) or emptied by Database.filter may sit at the same point: take the recorded one
+    idx = sorted(idx, key=lambda i: objs[i] is None)
     f_here = objs[idx[0]]
     if f_here is not None and result.f_opt is not None:
         got = float(np.real(np.atleast_1d(result.f_opt)[0]))
